@@ -191,7 +191,7 @@ def _union_ret(stage, guard):
     return d
 
 
-@contract(R, "LogicalType.logical_parse", props=["C09", "C10", "C04", "C03"])
+@contract(R, "LogicalType.logical_parse", props=["C09", "C10", "C04", "C03", "C01"])
 class LOGICAL_PARSE:
     self_model = "LogicalClass"
     cases = _lp_cases()
@@ -298,10 +298,10 @@ LOGICAL_PARSE.requires = {"no_pending_union_errors": "len(context.tmp_errors) ==
 
 LOGICAL_PARSE.clause_tags = {}
 for _lbl in list(_XOR) + list(_NOT) + list(_AND):
-    LOGICAL_PARSE.clause_tags[_lbl] = ["C09"]
+    LOGICAL_PARSE.clause_tags[_lbl] = ["C09", "C01"]
 for _lbl in _UNION:
-    LOGICAL_PARSE.clause_tags[_lbl] = ["C09", "C03"]
-LOGICAL_PARSE.clause_tags["clean"] = ["C09", "C10"]
+    LOGICAL_PARSE.clause_tags[_lbl] = ["C09", "C03", "C01"]
+LOGICAL_PARSE.clause_tags["clean"] = ["C09", "C10", "C01"]
 LOGICAL_PARSE.clause_tags["only_raises"] = ["C04"]
 LOGICAL_PARSE.clause_tags["no_input_mutation"] = ["C19"]
 for _e, _d in list(_XOR_RAISES.items()) + list(_NOT_RAISES.items()) + list(_AND_RAISES.items()) + list(_UNION_RAISES.items()):
